@@ -4,6 +4,7 @@ The real converted function is executed with vf.mon.tracing.TracingBackend
 installed in place of the control-flow operators and compared with the
 unconverted function running natively.
 """
+import ast
 import random
 
 from vf import diff
@@ -125,6 +126,14 @@ def judge(cid, src, inputs, reduce=True):
     kind0 = _kind(r['detail'])
 
     def still(text):
+      # stay inside the quantifier: callees are used inside int expressions, so every helper still ends in a return
+      try:
+        for fn_ in ast.parse(text).body:
+          if isinstance(fn_, ast.FunctionDef) and fn_.name[:1] == 'g' and fn_.name[1:].isdigit() and not (
+              fn_.body and isinstance(fn_.body[-1], ast.Return)):
+            return False
+      except SyntaxError:
+        return False
       b = stream.diff_case(text, winputs, 'to_graph', [])
       if b['verdict'] != 'ok':
         return False
